@@ -262,10 +262,14 @@ def _ccb_req(src):
         "or token_type == 'blockEnd'",
         "implies(token_type == 'selector', delimiter != -1 and source[delimiter] == '{')",
         "implies(token_type == 'blockEnd', delimiter == start and end == start + 1 and source[start] == '}')",
-        'g_last <= start', 'not g_final']]
+        "implies(token_type == 'propertyName' or token_type == 'propertyValue', delimiter == -1 or end <= delimiter)",
+        'g_last <= start', 'not g_final', "token_type == 'blockEnd' or g_delim < start",
+        "implies(token_type == 'propertyValue', g_prev == 'propertyName')"]]
 
 
-CCB_GHOST = [('g_last', 'max(end, delimiter)'), ('g_final', 'delimiter == -1')]
+CCB_GHOST = [('g_last', 'max(end, delimiter)'), ('g_final', 'delimiter == -1'), ('g_delim', 'delimiter'),
+             ('g_prev', 'token_type')]
+GH = {'g_last': 'int', 'g_final': 'bool', 'g_delim': 'int', 'g_prev': 'str'}
 
 # a selector token on the stack: [start, end, position of its `{`], reported before anything later
 define('sel_tok', ['t', 'code', 'g_last'],
@@ -278,7 +282,7 @@ define('sec_ok', ['s', 'code', 'pos'],
        "code[s.body_start - 1] == '{' and code[s.body_end] == '}'")
 
 GS_CAP = {'stack': 'list[list[int]]', 'pool': 'list[list[int]]', 'result': 'list[CSSSection|None]',
-          'pos': 'int', 'code': 'str', 'g_last': 'int', 'g_final': 'bool'}
+          'pos': 'int', 'code': 'str', **GH}
 GS_INV = ['len(result) == 1', 'pool is not stack', 'owned(pool) and owned(stack) and owned(result)',
           'forall(0, len(stack), lambda i: owned(stack[i]))', 'forall(0, len(pool), lambda i: owned(pool[i]))',
           'result[0] is None or owned(result[0])',
@@ -294,28 +298,136 @@ fn(C + ':get_css_section.<locals>.scan_callback', props=P,
 # [lo, hi]; `before` is at or before the name, `after` at or after the value
 define('prop_ranges_ok', ['p', 'lo', 'hi'],
        'lo <= p.name[0] and p.name[0] <= p.name[1] and p.name[1] <= p.value[0] and p.value[0] <= p.value[1] '
-       'and p.value[1] <= hi and p.value[1] <= p.after and p.after <= hi and lo <= p.before and p.before <= p.name[0]')
+       'and p.value[1] <= hi and p.value[1] <= p.after and p.after <= hi and lo <= p.before and '
+       # a name without a value (`@include x;`) is not a declaration in the sense of C17: it is listed with an
+       # empty value when the next name arrives, and its `before` may by then have moved past a nested rule
+       '(p.value[0] == p.value[1] or p.before <= p.name[0])')
 define('prop_tokens_ok', ['p'],
+       # (the length term outside the inner quantifier gives the solver a trigger for the enclosing one)
+       'len(p.value_tokens) >= 0 and '
        'forall(0, len(p.value_tokens), lambda i: range_in(p.value_tokens[i], p.value[0], p.value[1]))')
 
 # a pending property name [start, end, delimiter] in fragment coordinates
 define('pend_ok', ['t', 'n', 'g_last', 'g_final'],
        'len(t) == 3 and 0 <= t[0] and t[0] <= t[1] and t[1] <= n and t[1] <= g_last and '
-       '(t[2] == -1 or (0 <= t[2] and t[2] < n and t[1] <= t[2] + 1 and t[2] <= g_last)) and (t[2] != -1 or g_final)')
+       '(t[2] == -1 or (0 <= t[2] and t[2] < n and t[1] <= t[2] and t[2] <= g_last)) and (t[2] != -1 or g_final)')
 
 PP_CAP = {'state': 'ParsePropertiesState', 'pool': 'list[list[int]]', 'result': 'list[CSSProperty]',
-          'fragment': 'str', 'parse_from': 'int', 'g_last': 'int', 'g_final': 'bool'}
+          'fragment': 'str', 'parse_from': 'int', **GH}
 PP_INV = ['owned(pool) and owned(result) and owned(state)',
           'forall(0, len(pool), lambda i: owned(pool[i]))', 'forall(0, len(result), lambda i: owned(result[i]))',
           'state.pending_name is None or owned(state.pending_name)',
           'forall(0, len(pool), lambda i: len(pool[i]) == 3)',
           'state.pending_name is None or pend_ok(state.pending_name, len(fragment), g_last, g_final)',
           # `before` never runs ahead of what has been reported
-          'parse_from <= state.before and state.before <= parse_from + g_last + 1',
-          'state.pending_name is None or state.before <= parse_from + state.pending_name[0]',
+          'parse_from <= state.before and (state.before <= parse_from + g_delim + 1 or g_final)',
+          # between a name and the value that follows it at once, `before` is still in front of the name
+          "state.pending_name is None or g_prev != 'propertyName' or state.nested != 0 "
+          'or state.before <= parse_from + state.pending_name[0]',
           'forall(0, len(result), lambda i: prop_ranges_ok(result[i], parse_from, parse_from + len(fragment)))',
-          'forall(0, len(result), lambda i: owned(result[i].value_tokens) and prop_tokens_ok(result[i]))']
+          'forall(0, len(result), lambda i: owned(result[i].value_tokens))',
+          'forall(0, len(result), lambda i: prop_tokens_ok(result[i]))']
 
 fn(C + ':parse_properties.<locals>.scan_callback', props=P,
    params=CCB_PARAMS, returns='bool|None', captures=PP_CAP,
    requires=_ccb_req('fragment'), closure_invariant=PP_INV, modifies=['owned'], ghost_update=CCB_GHOST)
+
+PROPS_OK = ['forall(0, len(%s), lambda i: prop_ranges_ok(%s[i], %s, %s))',
+            'forall(0, len(%s), lambda i: prop_tokens_ok(%s[i]))']
+
+fn(C + ':parse_properties', props=P,
+   params={'code': 'str', 'parse_from': 'int', 'parse_to': 'int|None'}, returns='list[CSSProperty]',
+   # a fragment of `code`: the body of a section, or everything
+   requires=['0 <= parse_from', 'parse_to is None or (parse_from <= parse_to and parse_to <= len(code))',
+             'parse_from <= len(code)'],
+   ensures=['fresh(result)',
+            PROPS_OK[0] % ('result', 'result', 'parse_from', '(len(code) if parse_to is None else parse_to)'),
+            PROPS_OK[1] % ('result', 'result')],
+   modifies=[], allocates=True,
+   locals={'result': 'list[CSSProperty]', 'pool': 'list[list[int]]'})
+
+fn(C + ':get_css_section', props=P,
+   params={'code': 'str', 'pos': 'int', 'properties': 'bool'}, returns='CSSSection|None',
+   requires=[],
+   ensures=['result is None or sec_ok(result, code, pos)',
+            # declarations are parsed on request only, and all lie inside the body
+            'result is None or properties or result.properties is None',
+            'result is None or result.properties is None or (' +
+            PROPS_OK[0] % ('result.properties', 'result.properties', 'result.body_start', 'result.body_end') + ')',
+            'result is None or result.properties is None or (' +
+            PROPS_OK[1] % ('result.properties', 'result.properties') + ')'],
+   modifies=[], allocates=True,
+   locals={'stack': 'list[list[int]]', 'pool': 'list[list[int]]', 'result': 'list[CSSSection|None]'})
+
+# a CSS selection model: the item and every range inside the source; ranges inside the item
+define('csel_ok', ['m', 'code'],
+       '0 <= m.start and m.start <= m.end and m.end <= len(code) and m.ranges is not None')
+define('csel_ranges_ok', ['m'],
+       'm.ranges is not None and len(m.ranges) >= 0 and '
+       'forall(0, len(m.ranges), lambda i: range_in(m.ranges[i], m.start, m.end))')
+
+CN_CAP = {'result': 'list[SelectItemModel|None]', 'pending_property': 'list[tuple[int,int,int]|None]',
+          'pos': 'int', 'code': 'str', **GH}
+CN_INV = ['len(result) == 1', 'len(pending_property) == 1', 'owned(result) and owned(pending_property)',
+          'result[0] is None or (owned(result[0]) and result[0].ranges is not None and owned(result[0].ranges))',
+          # a remembered property name starts at or after the position and was reported before anything later
+          'pending_property[0] is None or (0 <= pending_property[0][0] and pos <= pending_property[0][0] and '
+          ' pending_property[0][0] <= pending_property[0][1] and pending_property[0][1] <= g_last)',
+          'result[0] is None or (csel_ok(result[0], code) and pos <= result[0].start)',
+          'result[0] is None or csel_ranges_ok(result[0])']
+
+fn(C + ':select_next_item.<locals>.scan_callback', props=P,
+   params=CCB_PARAMS, returns='bool|None', captures=CN_CAP,
+   requires=_ccb_req('code'), closure_invariant=CN_INV, modifies=['owned'], ghost_update=CCB_GHOST,
+   locals={'section': 'SelectItemModel', 'prop': 'tuple[int,int,int]'}, list_literals='tuple[int,int]',
+   loops={0: {'anchor': 'for r in',
+              'invariant': ['_i0 <= len(_seq0)', 'owned(result)', 'len(result) == 1', 'result[0] is section',
+                            'owned(section)', 'section.ranges is not None', 'owned(section.ranges)',
+                            '_seq0 is not section.ranges',
+                            'forall(0, len(_seq0), lambda i: range_in(_seq0[i], 0, end - start))',
+                            '0 <= section.start and section.start <= start and end <= section.end '
+                            'and section.end <= len(code) and pos <= section.start',
+                            'forall(0, len(section.ranges), lambda i: range_in(section.ranges[i], section.start, section.end))']}})
+
+fn(C + ':select_next_item', props=P,
+   params={'code': 'str', 'pos': 'int'}, returns='SelectItemModel|None',
+   requires=[],
+   ensures=['result is None or (csel_ok(result, code) and pos <= result.start)',
+            'result is None or csel_ranges_ok(result)'],
+   modifies=[], allocates=True,
+   locals={'result': 'list[SelectItemModel|None]', 'pending_property': 'list[tuple[int,int,int]|None]'})
+
+CP_CAP = {'state': 'ParseState', 'pos': 'int', 'code': 'str', **GH}
+CP_INV = ['owned(state)',
+          "state.type is None or state.type == 'selector' or state.type == 'propertyName'",
+          'state.type is None or (0 <= state.start and state.start < pos and state.start <= state.end and '
+          ' state.end <= len(code) and state.end <= g_last)',
+          'state.value_start == -1 or (0 <= state.value_start and state.value_start <= state.value_end and '
+          ' state.value_end <= len(code) and (state.value_delimiter == -1 or '
+          ' (state.value_end <= state.value_delimiter + 1 and state.value_delimiter < len(code))))',
+          'state.value_start == -1 or state.type is None or state.end <= state.value_start']
+
+fn(C + ':select_previous_item.<locals>.scan_callback', props=P,
+   params=CCB_PARAMS, returns='bool|None', captures=CP_CAP,
+   requires=_ccb_req('code'), closure_invariant=CP_INV, modifies=['owned'], ghost_update=CCB_GHOST)
+
+fn(C + ':select_previous_item', props=P,
+   params={'code': 'str', 'pos': 'int'}, returns='SelectItemModel|None',
+   requires=[],
+   ensures=['result is None or (csel_ok(result, code) and result.start < pos)',
+            'result is None or csel_ranges_ok(result)'],
+   modifies=[], allocates=True, list_literals='tuple[int,int]',
+   loops={0: {'anchor': 'for r in',
+              'invariant': ['_i0 <= len(_seq0)', 'fresh(result)', 'result.ranges is not None', 'fresh(result.ranges)',
+                            '_seq0 is not result.ranges', 'fresh(state)',
+                            'forall(0, len(_seq0), lambda i: range_in(_seq0[i], 0, state.value_end - state.value_start))',
+                            '0 <= result.start and result.start < pos and result.start <= state.value_start and '
+                            'state.value_start <= state.value_end and state.value_end <= result.end and result.end <= len(code)',
+                            'forall(0, len(result.ranges), lambda i: range_in(result.ranges[i], result.start, result.end))']}})
+
+fn(C + ':select_item_css', props=P,
+   params={'code': 'str', 'pos': 'int', 'is_prev': 'bool'}, returns='SelectItemModel|None',
+   requires=[],
+   ensures=['result is None or csel_ok(result, code)', 'result is None or csel_ranges_ok(result)',
+            'result is None or (result.start < pos if is_prev else pos <= result.start)'],
+   modifies=[], allocates=True)
